@@ -2,7 +2,7 @@
 from . import vise, core
 PID = 'C07'
 MC = []
-TR = ['C07_Equiv', 'C07_Snapshot', 'C07_Reuse', 'C07_ReuseConsistent', 'C07_ReuseExit']
+TR = ['C07_Equiv', 'C07_Snapshot', 'C07_Reuse', 'C07_ReuseConsistent', 'C07_ReuseExit', 'C07_LoopInputs', 'C07_LoopRefines', 'C07_LoopResume']
 
 
 def run(tier):
